@@ -17,6 +17,10 @@ RULE = (
     "accepts is pushed through verify_root and verify_delegation (both sides, both modes): only documented error families may come "
     "out. distinct = distinct mutated documents (structural fingerprint); non-trivial = mutated (not the base itself)."
 )
+RULE_ADDENDUM = (
+    'Additional: Python-level documents with non-string mapping keys, crowded signature maps (65..130 entries), repeat-after-reject, validators under threads.'
+)
+RULE = RULE + " " + RULE_ADDENDUM
 LIMITS = ["grey zones (integral non-int numerics, strptime-lenient dates, str/dict subclasses) are tallied, not judged",
           "objects with hostile dunder methods out of scope"]
 ASSUMPTIONS = ["reference schema vf/refs/schema.py states the documented grammar"]
